@@ -285,7 +285,19 @@ def run(repo, rep, tier):
                     tt = t.args[1]
                     names = [norm(e) for e in
                              (tt.elts if isinstance(tt, ast.Tuple) else [tt])]
-                    if all(_typed_name(repo, obj, cv, x) for x in names):
+                    # the isinstance type has to be tied to the *requested*
+                    # type: a local bound to type_from_name(type), or repo
+                    # classes inside a branch that fixed `type == <const>`
+                    tparam = cv.params[1]
+                    fixed = any(
+                        p2 and isinstance(t2, ast.Compare) and
+                        norm(t2.left) == tparam and
+                        isinstance(t2.ops[0], (ast.Eq, ast.In)) and
+                        isinstance(t2.comparators[0],
+                                   (ast.Constant, ast.Tuple))
+                        for t2, p2 in fs)
+                    if all(_typed_name(repo, obj, cv, x, tparam, fixed)
+                           for x in names):
                         kind = 'value under isinstance(%s)' % norm(tt)
                 if pol and isinstance(t, ast.Compare) and \
                         norm(t) == '%s is None' % vparam:
@@ -335,7 +347,10 @@ def run(repo, rep, tier):
         if not ok:
             rep.finding(r4, cv.qualname, norm(n), 'untyped-return', OBJ,
                         n.lineno, 'return value is neither a constructor '
-                        'call nor the value under an isinstance test')
+                        'call nor the value under an isinstance test for '
+                        'the requested type (type_from_name(type), or a '
+                        'class inside a branch that fixed type to a '
+                        'constant)')
 
     # ---------------- R5 ---------------------------------------------------
     dt = repo.cls(TYP, 'CIMDateTime')
@@ -549,17 +564,22 @@ def run(repo, rep, tier):
                         % tname)
 
 
-def _typed_name(repo, module, func, name):
-    """The isinstance() type is a CIM type: a repo class, str, or a local
-    bound to type_from_name(...)."""
-    if name == 'str':
-        return True
+def _typed_name(repo, module, func, name, tparam=None, fixed=True):
+    """The isinstance() type is the requested CIM type: a local bound to
+    type_from_name(<type parameter>), or - only inside a branch that fixed
+    the requested type to a constant - a repo class / str."""
     for x in walk_no_nested(func.node):
         if isinstance(x, ast.Assign) and \
                 any(dotted(t) == name for t in x.targets) and \
                 isinstance(x.value, ast.Call) and \
-                dotted(x.value.func) == 'type_from_name':
+                dotted(x.value.func) == 'type_from_name' and \
+                (tparam is None or (x.value.args and
+                                    norm(x.value.args[0]) == tparam)):
             return True
+    if not fixed:
+        return False
+    if name == 'str':
+        return True
     r = repo.resolve_import(module, name.split('.')[0])
     return r is not None and r[1] in r[0].classes
 
